@@ -124,6 +124,20 @@ theorem C04_ambiguous_rejected {P : Type} (vf : VFile.File) (enc : Encode.Enc) (
   | conflict s e n => exact ⟨s, e, n, rfl, conflict_genuine _ _ s e n h⟩
   | panic site => exact absurd h (NoPanic.machineToTable_no_panic ok mok site)
 
+/-- non-vacuity of `C04_ambiguous_rejected`'s premises: the grammar `S → t0 | A`, `A → t0` has two different
+derivation trees of the one-token sequence `t0` -/
+example :
+    let g : Grammar Nat Nat := { rules := [⟨0, [.t 0]⟩, ⟨0, [.n 1]⟩, ⟨1, [.t 0]⟩], start := 0 }
+    let tk : Tok Nat Unit := ⟨0, ()⟩
+    let t1 : Tree Nat Unit := .node 0 [.leaf tk]
+    let t2 : Tree Nat Unit := .node 1 [.node 2 [.leaf tk]]
+    WF g t1 (.n g.start) ∧ WF g t2 (.n g.start) ∧ t1.yield = t2.yield ∧ t1 ≠ t2 := by
+  intro g tk t1 t2
+  refine ⟨?_, ?_, rfl, ?_⟩
+  · exact WF.node 0 ⟨0, [.t 0]⟩ _ rfl (.cons (.leaf tk) .nil)
+  · exact WF.node 1 ⟨0, [.n 1]⟩ _ rfl (.cons (WF.node 2 ⟨1, [.t 0]⟩ _ rfl (.cons (.leaf tk) .nil)) .nil)
+  · intro h; injection h with h1 _; cases h1
+
 end KikiVerif.C04
 
 #print axioms KikiVerif.C04.C04_setAction_ok_iff
